@@ -15,6 +15,7 @@ import (
 	"fmt"
 	"math/rand"
 	"reflect"
+	"strings"
 	"time"
 
 	"github.com/segmentio/kafka-go/protocol"
@@ -28,11 +29,12 @@ import (
 )
 
 // Tok is one wire token of a message body.
-//   K: "b" bool, "i" fixed int, "v" zig-zag varint, "u" unsigned varint, "s" string, "y" bytes,
-//      "n" array count, "o" opaque run of bytes (message set), "t" empty tag buffer
-//   W: bytes of the scalar or of the length/count prefix; L: total bytes on the wire
-//   V: integer value (counts and lengths: the value on the wire, -1 = null)
-//   S: content of strings/bytes (hex);  D: derived by the encoder (size, crc, ...), read back from the wire
+//
+//	K: "b" bool, "i" fixed int, "v" zig-zag varint, "u" unsigned varint, "s" string, "y" bytes,
+//	   "n" array count, "o" opaque run of bytes (message set), "t" empty tag buffer
+//	W: bytes of the scalar or of the length/count prefix; L: total bytes on the wire
+//	V: integer value (counts and lengths: the value on the wire, -1 = null)
+//	S: content of strings/bytes (hex);  D: derived by the encoder (size, crc, ...), read back from the wire
 type Tok struct {
 	P string `json:"p"`
 	K string `json:"k"`
@@ -53,9 +55,10 @@ type absRecord struct {
 type genCfg struct {
 	rng     *rand.Rand
 	minArr  int
-	maxArr  int   // arrays have minArr..maxArr elements
-	strLens []int // candidate string lengths
-	recLens []int // candidate key/value/header lengths
+	maxArr  int    // arrays have minArr..maxArr elements
+	errCode *int16 // every 16-bit field named ...ErrorCode gets this value
+	strLens []int  // candidate string lengths
+	recLens []int  // candidate key/value/header lengths
 	maxRecs int
 	nulls   bool
 	binary  bool // strings may contain arbitrary bytes
@@ -153,6 +156,9 @@ func (g *gen) fill(v reflect.Value, nullable bool, path string) {
 	case reflect.Int8, reflect.Int16, reflect.Int32, reflect.Int64:
 		w := int(t.Size())
 		x := g.randInt(uint(8 * w))
+		if g.cfg.errCode != nil && w == 2 && strings.HasSuffix(strings.ToLower(path), "errorcode") {
+			x = int64(*g.cfg.errCode)
+		}
 		v.SetInt(x)
 		g.tok(Tok{P: path, K: "i", W: w, L: w, V: x})
 	case reflect.String:
